@@ -8,7 +8,10 @@ package main
 import (
 	"bytes"
 	"fmt"
+	"io"
+	"log"
 	"os"
+	"regexp"
 	"runtime"
 	"runtime/debug"
 	"strconv"
@@ -133,9 +136,138 @@ func (e *iterEngine) genBlockCase(r *hlib.Rand) []string {
 	return ops
 }
 
+// scan ops shared by the directed generators
+func genScans(r *hlib.Rand, ops []string, targets [][]byte, allowDB bool) []string {
+	nit := 2 + r.Intn(2)
+	for it := 0; it < nit; it++ {
+		rev := r.Chance(35)
+		if allowDB && r.Chance(30) {
+			ops = append(ops, fmt.Sprintf("db.iter rev=%s ko=0 lo=- hi=-", b01(rev)))
+		} else {
+			ops = append(ops, fmt.Sprintf("txn.iter rev=%s all=%s ko=0 pik=0 pfx=- since=0 lo=- hi=- upd=0 pend=-", b01(rev), b01(r.Chance(25))))
+		}
+		if r.Chance(30) {
+			ops = append(ops, "rewind", "next", "next")
+		}
+		for j := 0; j < 5; j++ {
+			ops = append(ops, "seek "+hlib.Hex(hlib.Pick(r, targets)))
+			for n := r.Intn(4); n > 0; n-- {
+				ops = append(ops, "next")
+			}
+		}
+		ops = append(ops, "close")
+	}
+	return ops
+}
+
+// genLevelCase: several flushes over (mostly) disjoint key groups, each sunk into the main tables
+// of the base level (ConcatIterator over >= 2 tables), newer data above in L0 / memtables, then
+// seeks whose targets include the gaps between adjacent tables.
+func (e *iterEngine) genLevelCase(r *hlib.Rand) []string {
+	vt := 1 << 20
+	if r.Chance(40) {
+		vt = 32
+	}
+	ops := []string{fmt.Sprintf("open eng=skiplist vt=%d", vt)}
+	groups := [][][]byte{
+		{{0x00}, {0x61}, {0x61, 0x00}, {0x61, 0x62}},
+		{{0x62}, {0x70}, {0x70, 0x00}},
+		{{0x70, 0x71}, {0x70, 0x71, 0x00}},
+		{{0xff}, {0xff, 0xff}},
+	}
+	writes := func(g [][]byte, n int) string {
+		var ws []string
+		for i := 0; i < n; i++ {
+			k := hlib.Pick(r, g)
+			switch x := r.Intn(100); {
+			case x < 70:
+				ws = append(ws, "set:"+hlib.Hex(k)+":"+hlib.Hex(val(r)))
+			case x < 88:
+				ws = append(ws, "del:"+hlib.Hex(k))
+			default:
+				ws = append(ws, "exp:"+hlib.Hex(k)+":"+hlib.Hex(val(r)))
+			}
+		}
+		return strings.Join(ws, ",")
+	}
+	// every key group is sunk at most once: the new table then overlaps no main table (a drain that
+	// merges with bottom tables of a different range leaks that range in compact.State and later
+	// compactions over it are refused — the lsm engine's subject, not modelled here)
+	order := []int{0, 1, 2, 3}
+	for i := len(order) - 1; i > 0; i-- {
+		j := r.Intn(i + 1)
+		order[i], order[j] = order[j], order[i]
+	}
+	rounds := 2 + r.Intn(3)
+	for i := 0; i < rounds; i++ {
+		g := groups[order[i]]
+		for n := 1 + r.Intn(2); n > 0; n-- {
+			ops = append(ops, "commit "+writes(g, 1+r.Intn(3)))
+		}
+		if r.Chance(10) {
+			ops = append(ops, "pset "+hlib.Hex(hlib.Pick(r, g))+" "+hlib.Hex(val(r)))
+		}
+		ops = append(ops, "rotate", "flush", "sink")
+	}
+	// newer data above the level
+	for n := r.Intn(3); n > 0; n-- {
+		ops = append(ops, "commit "+genWrites(r, 1+r.Intn(2)))
+		if r.Chance(40) {
+			ops = append(ops, "rotate")
+			if r.Chance(50) {
+				ops = append(ops, "flush")
+			}
+		}
+	}
+	return genScans(r, ops, probePool, true)
+}
+
+// genARTCase: ART memtables, keys from a prefix-free alphabet (all keys have length 2) with a
+// fan-out of 17..24 children below the node of the first byte, Seek + Next in both directions.
+func (e *iterEngine) genARTCase(r *hlib.Rand) []string {
+	ops := []string{"open eng=art vt=1048576"}
+	var keys [][]byte
+	fan := 17 + r.Intn(8)
+	for i := 0; i < fan; i++ {
+		keys = append(keys, []byte{0x6b, byte(0x61 + i)})
+	}
+	keys = append(keys, []byte{0x61, 0x61}, []byte{0x6d, 0x00}, []byte{0x7a, 0xff})
+	perm := append([][]byte{}, keys...)
+	for i := len(perm) - 1; i > 0; i-- { // insertion order decides the Node48 slots
+		j := r.Intn(i + 1)
+		perm[i], perm[j] = perm[j], perm[i]
+	}
+	var ws []string
+	for i, k := range perm {
+		ws = append(ws, "set:"+hlib.Hex(k)+":"+hlib.Hex(val(r)))
+		if len(ws) == 4 || i == len(perm)-1 {
+			ops = append(ops, "commit "+strings.Join(ws, ","))
+			ws = nil
+			if r.Chance(15) {
+				ops = append(ops, "rotate")
+			}
+		}
+	}
+	for n := r.Intn(3); n > 0; n-- {
+		k := hlib.Pick(r, keys)
+		if r.Chance(50) {
+			ops = append(ops, "commit del:"+hlib.Hex(k))
+		} else {
+			ops = append(ops, "commit set:"+hlib.Hex(k)+":"+hlib.Hex(val(r)))
+		}
+	}
+	targets := append([][]byte{{0x6b, 0x60}, {0x6b, 0x7f}, {0x6c, 0x00}}, keys...)
+	return genScans(r, ops, targets, true)
+}
+
 func (e *iterEngine) Gen(r *hlib.Rand, tier string) []string {
-	if r.Chance(8) {
+	switch x := r.Intn(100); {
+	case x < 8:
 		return e.genBlockCase(r)
+	case x < 26:
+		return e.genLevelCase(r)
+	case x < 36:
+		return e.genARTCase(r)
 	}
 	var ops []string
 	eng := "skiplist"
@@ -341,8 +473,12 @@ func (s *session) open(eng string, vt int) {
 	} else {
 		opt.MemTableEngine = NoKV.MemTableEngineSkiplist
 	}
+	opt.NumLevelZeroTables = 1000
+	opt.IngestCompactBatchSize = 2
 	s.dir = dir
 	s.db = NoKV.Open(opt)
+	// compaction only when an op asks for it
+	s.db.VerifLSM().VerifStopCompactors()
 }
 
 func (s *session) closeIter() {
@@ -432,6 +568,38 @@ func (s *session) item() string {
 	return "no-iter"
 }
 
+var tableRe = regexp.MustCompile(`\d+\[\d+\.([0-9a-f]*)@(\d+)\.\.\d+\.([0-9a-f]*)@(\d+)\]#(\d+)`)
+
+// mainTables renders the main tables of level `base` from LSM.VerifShape as
+// min@ver..max@ver#entries;… (what the driver prints for the model's level)
+func mainTables(shape string, base int) string {
+	var out []string
+	for _, part := range strings.Fields(shape) {
+		pre := fmt.Sprintf("L%d:", base)
+		if !strings.HasPrefix(part, pre) {
+			continue
+		}
+		part = strings.TrimPrefix(part, pre)
+		if i := strings.Index(part, "|ingest:"); i >= 0 {
+			part = part[:i]
+		}
+		for _, m := range tableRe.FindAllStringSubmatch(part, -1) {
+			v := func(x string) string {
+				n, _ := strconv.ParseUint(x, 10, 64)
+				return verStr(n)
+			}
+			h := func(x string) string {
+				if x == "" {
+					return "-"
+				}
+				return x
+			}
+			out = append(out, fmt.Sprintf("%s@%s..%s@%s#%s", h(m[1]), v(m[2]), h(m[3]), v(m[4]), m[5]))
+		}
+	}
+	return strings.Join(out, ";")
+}
+
 func (s *session) exec(op string) string {
 	toks := strings.Fields(op)
 	if len(toks) == 0 {
@@ -482,9 +650,9 @@ func (s *session) exec(op string) string {
 		if !did {
 			return "noop"
 		}
-		imm1, l01, deeper := s.db.VerifIterShape()
-		if imm1 != imm0-1 || deeper != 0 {
-			return fmt.Sprintf("shape:%d,%d,%d", imm1, l01, deeper)
+		imm1, l01, _ := s.db.VerifIterShape()
+		if imm1 != imm0-1 {
+			return fmt.Sprintf("shape:%d,%d", imm1, l01)
 		}
 		if l01 == l00 {
 			return "ok:-" // empty memtable: no table written
@@ -494,6 +662,29 @@ func (s *session) exec(op string) string {
 			got = append(got, strconv.Itoa(n))
 		}
 		return "ok:" + strings.Join(got, ",")
+	case "sink":
+		// move the single level-0 table into the main tables of the base level:
+		// L0 -> ingest buffer (l0move), ingest buffer -> main tables (drain)
+		l := s.db.VerifLSM()
+		base := l.VerifBaseLevel()
+		l0, ing, _, others := l.VerifCounts(base)
+		if l0 != 1 || ing != 0 || len(others) != 0 {
+			return "skip"
+		}
+		for _, kind := range []string{"l0move", "drain"} {
+			res, err := l.VerifCompact(kind)
+			if err != nil {
+				return "err:" + kind + ":" + err.Error()
+			}
+			if res != "ok" {
+				return kind + ":" + res
+			}
+		}
+		l0, ing, _, others = l.VerifCounts(base)
+		if l0 != 0 || ing != 0 || len(others) != 0 {
+			return fmt.Sprintf("shape:l0=%d,ing=%d,others=%v", l0, ing, others)
+		}
+		return "ok:" + mainTables(l.VerifShape(), base)
 	case "txn.iter":
 		s.closeIter()
 		upd := kvArg(toks, "upd") == "1"
@@ -667,6 +858,7 @@ func (e *iterEngine) Nontrivial(ops, impl, model, spec []string) bool {
 }
 
 func main() {
+	log.SetOutput(io.Discard)
 	if n, _ := strconv.Atoi(os.Getenv("ITER_DEBUG")); n > 0 {
 		e := &iterEngine{}
 		rng := hlib.NewRand(7)
